@@ -491,6 +491,12 @@ def _load_bs(basis_dir, Rmax, order, odd, inv=False, verbose=False):
         print('Cached basis file incompatible!')
         return None, None
 
+    # number of matrices and their size according to the file name
+    N = 1 + (best_prm['order'] if best_prm['odd'] else best_prm['order'] // 2)
+    if bs.shape != (N, best_prm['Rmax'] + 1, best_prm['Rmax'] + 1):
+        print('Cached basis file incompatible!')
+        return None, None
+
     # pick orders parity
     if best_prm['odd'] > odd:  # odd present but not needed
         bs = bs[::2]  # take only even
